@@ -571,7 +571,9 @@ def framing_variants():
           b"Content-Length: \xb5", b"Content-Length: 5e0", b"Content-Length: 1_0", b"Content-Length : 5", b"Content-Length\t: 5",
           b" Content-Length: 5", b"Content_Length: 5", b"Content-Length: 4", b"Content-Length: 6", b"Content-Length: 0",
           b"Content-Length:\r\n 5", b"Content-Length: 1\r\n 0", b"Content-Length: 5\x00", b"Content-Length: 5\r", b"Content-Length: \n5",
-          b"Content-Length: 000000000000000000005", b"CONTENT-LENGTH: 5", b"Content-Length: 5;q=1", b"Content-Length: \"5\""]
+          b"Content-Length: 000000000000000000005", b"CONTENT-LENGTH: 5", b"Content-Length: 5;q=1", b"Content-Length: \"5\"",
+          b"Content-Length: 9223372036854775807", b"Content-Length: 9223372036854775808", b"Content-Length: 18446744073709551616",
+          b"Content-Length: 00", b"Content-Length: 5\t\t", b"Content-Length: \t 5"]
     te = [b"Transfer-Encoding: chunked", b"transfer-encoding:chunked", b"Transfer-Encoding:\tChunked\t", b"Transfer-Encoding: CHUNKED",
           b"Transfer-Encoding: identity", b"Transfer-Encoding: gzip", b"Transfer-Encoding: gzip, chunked", b"Transfer-Encoding: chunked, gzip",
           b"Transfer-Encoding: chunked, chunked", b"Transfer-Encoding: identity, chunked", b"Transfer-Encoding: chunked, identity",
@@ -590,7 +592,8 @@ def hostile_chunk_lines():
     return [b"5", b"05", b"0005", b"5;a", b"5;a=b", b'5;a="b c"', b"5 ;a", b"5; a", b"5;a =b", b"5;", b"5;;", b"5;=", b"0x5", b"+5", b"-5",
             b" 5", b"5 ", b"\t5", b"5\t", b"", b"5h", b"g", b"5,5", b"5.0", b"5\r", b"5\n", b"\n5", b"5;a\x00", b"5;a\x7f", b"5;a\x0b", b"5;\xe9",
             b"5;a=\"b\\\"c\"", b"5;a=\"", b"0000000000000000000000005", b"00000000000000005", b"5;" + b"e" * 990, b"5;" + b"e" * 1100, b"\xb5", b"5\x00",
-            b"5 5", b"5_0", b"5;a\r", b"5;a\nb"]
+            b"5 5", b"5_0", b"5;a\r", b"5;a\nb", b"7fffffffffffffff", b"8000000000000000", b"ffffffffffffffff", b"10000000000000000",
+            b"7FFFFFFFFFFFFFFF;x", b"0000000000000005", b"5;" + b"e" * 1020, b"5;" + b"e" * 1021, b"5;" + b"e" * 1022]
 
 
 def gen_hostile_request(rng, rid):
